@@ -381,9 +381,10 @@ def parse_contracts(path):
             if s == "prologue:":
                 mode = "prologue"
                 continue
-            m = re.match(r"ghost\s+(after\s+let(?:\s+\w+)?|wrap\s+selfcall|wrap\s+method\s+\w+|wrap\s+call\s+\w+|epilogue|after\s+call\s+\w+|loop_pre|loop_tail|loop_post)\s*#(\d+)(?:\s+as\s+(\w+))?\s*:$", s)
+            m = re.match(r"ghost\s+(after\s+let(?:\s+\w+)?|wrap\s+selfcall|wrap\s+method\s+\w+|wrap\s+call\s+\w+|epilogue|after\s+call\s+\w+|loop_pre|loop_tail|loop_post)\s*#(\d+)(?:\s+as\s+(\w+))?(?:\s*\[([^\]]*)\])?\s*:$", s)
             if m:
-                g = {"kind": " ".join(m.group(1).split()), "k": int(m.group(2)), "name": m.group(3) or "", "text": ""}
+                g = {"kind": " ".join(m.group(1).split()), "k": int(m.group(2)), "name": m.group(3) or "", "text": "",
+                     "props": m.group(4).split() if m.group(4) else None}
                 cur.ghosts.append(g)
                 mode = "ghost"
                 continue
